@@ -88,8 +88,11 @@ class C07(Harness):
         'schema S2 of the generated family (only datatypes that reject with ValueError)',
         'texts: symbolic lines within the length bounds; the mutation-style long texts of the '
         'quantifier are outside',
-        'validator.main is not driven (argparse / file objects are not symbolic); its exit status '
-        'follows from loadConfigFile raising only ConfigurationError',
+        'validator.main is driven with the schema served from memory and the (symbolic) configuration on '
+        'standard input; configuration files named on the command line (argparse.FileType) are not driven',
+        '%include arguments: symbolic tails behind the URL shapes the loader distinguishes; urljoin / urldefrag '
+        'run symbolically through an instrumented copy of urllib/parse.py; a symbolic URL outside the in-memory '
+        'store is modelled as unopenable; __import__ of a symbolic package name: one known package or ImportError',
     )
     expected_classes = ('ok', 'reject')
     nontrivial_rule = 'every completed path'
@@ -122,12 +125,15 @@ class C07(Harness):
                 us.append({'kind': 'text', 'lines': lines, 'schema': sid})
         for i, g in enumerate(graphs()):
             us.append({'kind': 'include', 'graph': i})
+        # the validator command on the same texts (configuration on standard input)
+        for lines in LINES_Q[:6] + LINES_Q[10:12]:
+            us.append({'kind': 'validator', 'lines': lines})
         for line in (INCL_Q if tier == 'quick' else INCL_T):
             us.append({'kind': 'inclarg', 'lines': [['kc v'], line]})
         return us
 
     def inputs(self, eng, unit):
-        if unit['kind'] in ('text', 'inclarg'):
+        if unit['kind'] in ('text', 'inclarg', 'validator'):
             _, holes = common.build_lines(self, eng, unit['lines'])
             return holes
         if unit['kind'] == 'override':
@@ -141,6 +147,8 @@ class C07(Harness):
                 lines = common.assemble(unit['lines'], inp)
                 with P.mem_resources({}):
                     r = P.run_load(XML[unit.get('schema', 'S2')], lines, url=P.MAIN)
+            elif unit['kind'] == 'validator':
+                return self._validator(unit, inp)
             elif unit['kind'] == 'inclarg':
                 from .. import instr
                 if instr.installed():
@@ -174,10 +182,40 @@ class C07(Harness):
             return ('crash', r[1])
         return (r[0],)
 
+    def _validator(self, unit, inp):
+        """ZConfig.validator.main with the schema served from memory and the configuration on
+        standard input -> ('ok'|'reject'|'crash', exit status, lines written to stderr)"""
+        import io
+        import sys
+        from ZConfig import validator
+        lines = common.assemble(unit['lines'], inp)
+        store = {'http://m/s.xml': XML['S2'].split('\n')}
+        old_in, old_err = sys.stdin, sys.stderr
+        sys.stdin = common.make_file(lines)
+        sys.stderr = err = io.StringIO()
+        try:
+            with P.mem_resources(store):
+                try:
+                    rc = validator.main(['-s', 'http://m/s.xml'])
+                except SystemExit as e:
+                    return ('crash', 'SystemExit', str(e.code))
+                except Exception as e:
+                    return ('crash', type(e).__name__)
+        finally:
+            sys.stdin, sys.stderr = old_in, old_err
+        # what a direct load says about the same text
+        r = P.run_load(XML['S2'], lines)
+        n = len([x for x in err.getvalue().split('\n') if x.strip()])
+        ok = (rc == 0 and r[0] == 'ok' and n == 0) or (rc == 1 and r[0] == 'reject' and n >= 1)
+        return ('ok' if rc == 0 else 'reject', rc, ok)
+
     def expect(self, unit, inp, real):
         return ('no-internal-error',)
 
     def agree(self, unit, real, exp):
+        if unit['kind'] == 'validator':
+            # status 0 exactly for a valid text, status 1 with a message otherwise
+            return z3.BoolVal(real[0] in ('ok', 'reject') and real[2] is True)
         return z3.BoolVal(real[0] in ('ok', 'reject'))
 
     def classify(self, unit, real):
